@@ -5,6 +5,7 @@ import (
 	"math/rand"
 	"os"
 	"path/filepath"
+	"regexp"
 	"sort"
 	"strings"
 
@@ -374,6 +375,8 @@ type runOut struct {
 	files map[string]string
 }
 
+var logDateLine = regexp.MustCompile(`(?m)^(Date|Start|End)         *: .*$`)
+
 func runTmpl(c *Ctx, t *cmdTmpl, in *cmdInputs, extra []string, tag string) runOut {
 	outDir := filepath.Join(in.dir, "out-"+tag)
 	_ = os.RemoveAll(outDir)
@@ -393,7 +396,8 @@ func runTmpl(c *Ctx, t *cmdTmpl, in *cmdInputs, extra []string, tag string) runO
 	for _, e := range ents {
 		if !e.IsDir() {
 			b, _ := os.ReadFile(filepath.Join(outDir, e.Name()))
-			o.files[e.Name()] = string(b)
+			// support logs carry the time of the run (Date / Start / End lines, minute resolution): not a result
+			o.files[e.Name()] = logDateLine.ReplaceAllString(string(b), "$1 : <time of the run>")
 		}
 	}
 	_ = os.RemoveAll(outDir)
